@@ -30,8 +30,8 @@ struct Case {
 
 pub fn gen_optimizer(t: &mut Tape) -> Kind {
     match t.pick(5) {
-        0 => Kind::SGD { lr: [0.01f32, 0.05, 0.1][t.pick(3)], decay: if t.bool() { Some(0.01) } else { None } },
-        1 => Kind::SGDM { lr: [0.01f32, 0.05][t.pick(2)], momentum: 0.9, dampening: if t.bool() { 0.1 } else { 0.0 }, decay: if t.bool() { Some(0.01) } else { None } },
+        0 => Kind::SGD { lr: [0.01f32, 0.05, 0.1, 1e-5, 1e-4][t.pick(5)], decay: if t.bool() { Some(0.01) } else { None } },
+        1 => Kind::SGDM { lr: [0.01f32, 0.05, 1e-5][t.pick(3)], momentum: 0.9, dampening: if t.bool() { 0.1 } else { 0.0 }, decay: if t.bool() { Some(0.01) } else { None } },
         2 => Kind::Adam { lr: [0.001f32, 0.01][t.pick(2)], b1: 0.9, b2: 0.999, eps: 1e-8, decay: if t.bool() { Some(0.01) } else { None } },
         3 => Kind::AdamW { lr: [0.001f32, 0.01][t.pick(2)], b1: 0.9, b2: 0.999, eps: 1e-8, decay: 0.01 },
         _ => Kind::RMSprop { lr: [0.001f32, 0.01][t.pick(2)], alpha: 0.9, eps: 1e-7, decay: if t.bool() { Some(0.01) } else { None }, momentum: if t.bool() { Some(0.5) } else { None }, centered: t.bool() },
@@ -162,7 +162,13 @@ fn check(case: &Case, ev: &mut CaseEv) -> CheckResult {
     let before: Vec<Vec<f32>> = collect_params(&net).iter().map(|(_, t)| tens::flat(t)).collect();
     let mut changed = false;
     for (ci, call) in case.calls.iter().enumerate() {
-        let xs: Vec<Tensor> = (0..call.n).map(|i| tens::build(&spec.input, &payload(call.dseed.wrapping_add(i as u32 * 13), 1, n_in, 1.0))).collect();
+        // some samples are all-zero (a bias-free block then receives an exactly zero gradient)
+        let xs: Vec<Tensor> = (0..call.n)
+            .map(|i| {
+                let zero = (call.dseed >> (i % 16)) & 3 == 0;
+                tens::build(&spec.input, &if zero { vec![0.0; n_in] } else { payload(call.dseed.wrapping_add(i as u32 * 13), 1, n_in, 1.0) })
+            })
+            .collect();
         let ys: Vec<Tensor> = (0..call.n).map(|i| tens::build(&out_dims, &payload(call.dseed.wrapping_add(500 + i as u32 * 7), 1, count(&out_dims), 1.0))).collect();
         let (xr, yr): (Vec<&Tensor>, Vec<&Tensor>) = (xs.iter().collect(), ys.iter().collect());
         let r = catch(std::panic::AssertUnwindSafe(|| net.learn(&xr, &yr, None, call.batch, call.epochs, None)));
@@ -220,7 +226,7 @@ impl Prop for C10 {
         Some(2)
     }
     fn rule(&self) -> String {
-        "tape-decoded history: small network = optional shape-keeping prefix layer + feedback block (1-3 dense layers, or 1-2 shape-preserving convolution / deconvolution layers; bias on/off; loops 1-4; any skip flags; coupling accumulation in {add, subtract, multiply, mean}) + optional dense layer; one of five optimizers with option variants; 1-4 learn() calls with batch 1-4, 1-3 epochs, 1-6 samples. Invariant after creation and after every call: all unrolled repetitions of every block layer hold bit-identical weights, biases and kernels (read through the hooks), and the `parameters:` number of the Display text equals the model count with each shared parameter once. Kernel blocks with subtract / multiply coupling abort the first step with 'Invalid sub./mul.' (refused loudly: classified unsupported, not asserted on); NaN-diverged runs are discards. Non-trivial: loops >= 2 and weights changed. Distinct = (block and network specification, optimizer, call pattern).".into()
+        "tape-decoded history: small network = optional shape-keeping prefix layer + feedback block (1-3 dense layers, or 1-2 shape-preserving convolution / deconvolution layers; bias on/off; loops 1-4; any skip flags; coupling accumulation in {add, subtract, multiply, mean}) + optional dense layer; one of five optimizers with option variants; 1-4 learn() calls with batch 1-4, 1-3 epochs, 1-6 samples (a quarter of them all-zero), learning rates from 1e-5 to 0.1. Invariant after creation and after every call: all unrolled repetitions of every block layer hold bit-identical weights, biases and kernels (read through the hooks), and the `parameters:` number of the Display text equals the model count with each shared parameter once. Kernel blocks with subtract / multiply coupling abort the first step with 'Invalid sub./mul.' (refused loudly: classified unsupported, not asserted on); NaN-diverged runs are discards. Non-trivial: loops >= 2 and weights changed. Distinct = (block and network specification, optimizer, call pattern).".into()
     }
     fn assumptions(&self) -> Vec<String> {
         vec!["'supported coupling' follows the code's own loud refusals: Overwrite is unimplemented!, subtract/multiply for kernel blocks panic before any state is observable".into()]
